@@ -869,13 +869,22 @@ func execSentinel(t *testing.T, plan any, out *Outcome) {
 	s.Cfg.W.Tick = 0.02
 	rr := e.background("setup", func(ctx context.Context) {
 		opt := sr.clientOption()
-		cl, err := newSentinelClient(&opt, sr.connFn, newRetryer(opt.RetryDelay))
-		if err != nil {
-			setupErr = err
+		for attempt := 0; ; attempt++ {
+			cl, err := newSentinelClient(&opt, sr.connFn, newRetryer(opt.RetryDelay))
+			if err == errConnExpired && attempt < 5 {
+				// a connection reached its ConnLifetime in the middle of the discovery: the constructor gives up with
+				// the internal error (15.8); the application would call it again
+				s.Stats["setup.retried-after-lifetime-expiry"]++
+				continue
+			}
+			if err != nil {
+				setupErr = err
+				return
+			}
+			sr.cl = cl
+			e.clients = append(e.clients, cl)
 			return
 		}
-		sr.cl = cl
-		e.clients = append(e.clients, cl)
 	})
 	s.Cfg.W.Tick = tickW
 	stopClient := func() {
